@@ -392,6 +392,11 @@ func runMutAsm(repo, verif string, args []string) {
 
 // ---- behaviour-preserving transformations (false-alarm battery) ----
 
+// per-site control for transformations that may not type-check everywhere (unelse)
+var neutralOnlySite = -1
+var neutralKeep = map[int]bool{}
+var neutralSites = 0
+
 // neutralTransform rewrites one file with a semantics-preserving transformation applied at every eligible site.
 func neutralTransform(src []byte, filename, kind string) ([]byte, int, error) {
 	fset := token.NewFileSet()
@@ -552,6 +557,64 @@ func neutralTransform(src []byte, filename, kind string) ([]byte, int, error) {
 			}
 			return true
 		})
+	case "unelse":
+		// if [init;] c { …; return/break/continue/goto/panic } else { rest }  →  [init;] if c { … }; rest
+		// (what golint's indent-error-flow asks for). Applied to the site numbered onlySite (all sites when < 0).
+		site := 0
+		leaves := func(b *ast.BlockStmt) bool {
+			if len(b.List) == 0 {
+				return false
+			}
+			switch l := b.List[len(b.List)-1].(type) {
+			case *ast.ReturnStmt, *ast.BranchStmt:
+				return true
+			case *ast.ExprStmt:
+				if call, ok := l.X.(*ast.CallExpr); ok {
+					if id, ok := call.Fun.(*ast.Ident); ok && id.Name == "panic" {
+						return true
+					}
+				}
+			}
+			return false
+		}
+		var fix func(list []ast.Stmt) []ast.Stmt
+		fix = func(list []ast.Stmt) []ast.Stmt {
+			var out []ast.Stmt
+			for _, st := range list {
+				ifs, ok := st.(*ast.IfStmt)
+				if ok && ifs.Else != nil && leaves(ifs.Body) {
+					if eb, isBlk := ifs.Else.(*ast.BlockStmt); isBlk {
+						mine := site
+						site++
+						if neutralOnlySite == -1 || neutralOnlySite == mine || neutralKeep[mine] {
+							if ifs.Init != nil {
+								out = append(out, ifs.Init)
+								ifs.Init = nil
+							}
+							ifs.Else = nil
+							out = append(out, ifs)
+							out = append(out, fix(eb.List)...)
+							n++
+							continue
+						}
+					}
+				}
+				out = append(out, st)
+			}
+			return out
+		}
+		ast.Inspect(f, func(x ast.Node) bool {
+			switch v := x.(type) {
+			case *ast.BlockStmt:
+				v.List = fix(v.List)
+			case *ast.CaseClause:
+				v.Body = fix(v.Body)
+			case *ast.CommClause:
+				v.Body = fix(v.Body)
+			}
+			return true
+		})
+		neutralSites = site
 	case "flip-else":
 		ast.Inspect(f, func(x ast.Node) bool {
 			ifs, ok := x.(*ast.IfStmt)
@@ -601,7 +664,7 @@ func neutralTransform(src []byte, filename, kind string) ([]byte, int, error) {
 // a false alarm of the checker, since the transformation preserves behaviour).
 func runNeutral(repo, verif string, args []string) {
 	if len(args) < 2 {
-		fmt.Fprintln(os.Stderr, "usage: simdvet neutral <swap-eq|flip-rel|incdec|assign-op|var-decl|flip-else|reorder|errmsg|nop-stmt> <file.go>...")
+		fmt.Fprintln(os.Stderr, "usage: simdvet neutral <swap-eq|flip-rel|incdec|assign-op|var-decl|flip-else|unelse|reorder|errmsg|nop-stmt> <file.go>...")
 		os.Exit(2)
 	}
 	kind := args[0]
@@ -613,6 +676,29 @@ func runNeutral(repo, verif string, args []string) {
 		if err != nil {
 			fmt.Fprintln(os.Stderr, err)
 			os.Exit(2)
+		}
+		if kind == "unelse" {
+			// greedy: keep every site whose rewrite (together with the sites kept so far) still type-checks
+			neutralKeep = map[int]bool{}
+			neutralOnlySite = -2
+			neutralTransform(src, path, kind) // count sites
+			nSites := neutralSites
+			for sidx := 0; sidx < nSites; sidx++ {
+				neutralKeep[sidx] = true
+				neutralOnlySite = -2
+				cand, _, err := neutralTransform(src, path, kind)
+				if err == nil {
+					ov := map[string][]byte{path: cand}
+					for k, v := range overlay {
+						ov[k] = v
+					}
+					if _, lerr := loadGo(repo, cfgAmd64, ov); lerr == nil {
+						continue
+					}
+				}
+				delete(neutralKeep, sidx)
+			}
+			neutralOnlySite = -2
 		}
 		out, n, err := neutralTransform(src, path, kind)
 		if err != nil {
